@@ -168,6 +168,24 @@ CLAIMED['C15'] = dict(
          'truncation arithmetic, round-trip laws on values.',
     ref='4 C15, App. B',
     note='stage markers located by the option literal they test')
+CLAIMED['C03'] = dict(
+    technique='resolved-callee query for the escaper on every quoting path; '
+              'set inclusion fast-path characters vs. characters '
+              'html.escape rewrites (read from the stdlib source); '
+              'literal/name agreement; guard query',
+    text='Partial: every html-quoting path (simple form, html_quote '
+         'modifier, fmt=html-quote) resolves to one function returning '
+         'html.escape(value) with quote on and no other rewriting; the '
+         'fast path\'s needs-quoting character set covers every character '
+         'the escaper rewrites and its polarity is right; the option name '
+         'the entity syntax appends equals the option dtml-var accepts, the '
+         'simple-form key and the name the modifier loop compares; '
+         'modifiers of &dtml.m1.m2-name; become options with the name '
+         'first; on the plain path a str value is never rewritten. Not '
+         'decided: html.escape itself (trusted).',
+    ref='4 C03',
+    note='html.escape character sets are read from the interpreter\'s '
+         'html/__init__.py')
 PENDING = {}
 NA = {
     'C16': 'numerical identities over run-time data (sums, means, n vs n-1, '
